@@ -4,7 +4,7 @@
      from_bytes_le        little-endian magnitude, non-negative
      to_bytes_le          num-bigint: magnitude bytes, [0] for zero;  rug to_digits: [] for zero
      modpow               num-bigint: panics on zero modulus or negative exponent, result in [0,m)
-     secure_pow_mod       rug: panics unless exponent > 0 and modulus odd
+     secure_pow_mod       rug: panics unless exponent > 0 and modulus odd (used only then; pow_mod otherwise)
      * + -                exact
      %                    truncated remainder (sign of the dividend); panics on a zero divisor   *)
 From WS Require Import lib.Bytes lib.Res.
@@ -30,11 +30,22 @@ Definition to_bytes_le (be : backend) (z : Z) : list N :=
   if a =? 0 then match be with Default => [0%N] | Fast => [] end
   else Z_to_le (nbytes a) a.
 
+(* rug pow_mod(..).unwrap(): GMP mpz_powm; panics on a zero modulus; a negative exponent needs a
+   modular inverse (never reached: exponents come from from_bytes_le) and is rendered as Panic *)
+Definition pow_mod_unwrap (b e m : Z) : nres Z :=
+  if (m =? 0) || (e <? 0) then Panic else Ok (powmod b e m).
+
 Definition modpow (be : backend) (b e m : Z) : nres Z :=
   match be with
   | Default => if (m =? 0) || (e <? 0) then Panic else Ok (powmod b e m)
-  | Fast => if (e <=? 0) || Z.even m || (m <=? 0) then Panic else Ok (powmod b e m)
+  | Fast => (* after the repair: secure_pow_mod only when its preconditions hold *)
+            if (e <=? 0) || Z.even m then pow_mod_unwrap b e m else Ok (powmod b e m)
   end.
+
+(* the pinned 0.7.0 fast-math body: secure_pow_mod unconditionally, which panics unless the
+   exponent is positive and the modulus odd (finding F6) *)
+Definition modpow_fast_v070 (b e m : Z) : nres Z :=
+  if (e <=? 0) || Z.even m || (m <=? 0) then Panic else Ok (powmod b e m).
 
 Definition rem (a b : Z) : nres Z := if b =? 0 then Panic else Ok (Z.rem a b).
 
